@@ -298,7 +298,9 @@ class Switch(Generic[R], GenerativeFunction[R]):
             retdiff = Diff.unknown_change(retval)
 
         if Diff.tree_tangent(idx_diff) == UnknownChange:
-            weight += score - trace.get_score()
+            # The branch edits above were applied to freshly simulated traces, so their weights are
+            # relative to those discarded traces, not to the previous trace.
+            weight = score - trace.get_score()
 
         # TODO: this is totally wrong, fix in future PR.
         bwd_request: Update = rets[0][3]
